@@ -214,6 +214,15 @@ def judge(spec, tier="quick"):
             break
         a += L
     if not f6_hit:
+        # the continued run starts from the returned state: its column 0 equals the previous segment's last
+        # column for EVERY recorded quantity (voltages, gates, synaptic states, membrane and synaptic currents)
+        for j in range(1, len(parts)):
+            out.evals += 1
+            if not np.allclose(parts[j][:, 0], parts[j - 1][:, -1], rtol=0, atol=tol, equal_nan=True):
+                r = int(np.argmax(np.abs(parts[j][:, 0] - parts[j - 1][:, -1])))
+                out.violate("junction", f"segment {j + 1} of {segs} does not start from the state returned by segment {j}: recording {recs[r]} is "
+                            f"{parts[j - 1][r, -1]!r} at the end of the previous run and {parts[j][r, 0]!r} in column 0 of the continued run")
+                return out
         cat = np.concatenate([parts[0]] + [p[:, 1:] for p in parts[1:]], axis=1)
         out.evals += 1
         if cat.shape != full.shape or not np.allclose(cat, full, rtol=0, atol=tol):
